@@ -58,7 +58,7 @@ def r1(ctx):
     ctx.check("welford_online::calculate_recurrence_relation_m", ok, "M' = M + (x - mean)(x - mean')", got=render(r.return_term()), key="formula")
     v = ctx.body(ctx.find(path=W + "calculate_population_variance"))
     tab = {}
-    for g, term, bi in v.local_cases(0):
+    for g, term, bi in v.expanded_cases(0):
         for conj in g:
             for a in conj:
                 c = atoms.atom_cmp(a)
